@@ -82,10 +82,10 @@ def worker(shard, nshards, qs, thorough, r):
     duck = oe.Duck(SCHEMA, {})
     inst_cache = {}
 
-    def sqlite_dbs(tables):
-        key = tuple(tables)
+    def sqlite_dbs(tables, rows=None):
+        key = (tuple(tables), rows or r)
         if key not in inst_cache:
-            inst_cache[key] = list(oe.instances(SCHEMA, tables, DOMAIN, r))
+            inst_cache[key] = list(oe.instances(SCHEMA, tables, DOMAIN, rows or r))
         return inst_cache[key]
 
     def duck_dbs(tables):
@@ -178,7 +178,9 @@ def worker(shard, nshards, qs, thorough, r):
         live = {vd: vs for vd, (label, vs) in states.items() if vd not in bad}
         if sqlite_ok and live:
             dead_on_sqlite = set()
-            for data in sqlite_dbs(tables):
+            # (quick tier: the 576 three-item join chains run on every database with <= 1 row per table; NULL extension of
+            #  unmatched rows already shows there; the thorough tier uses the full bound)
+            for data in sqlite_dbs(tables, 1 if (not thorough and "chain3" in tags) else None):
                 if not live:
                     break
                 s = oe.Sqlite({t: SCHEMA[t] for t in tables}, data)
@@ -239,6 +241,10 @@ def run(ctx: Ctx) -> None:
     quick = ctx.quick
     k = 2
     qs = list(queries(k, opt_extras=True, engine_extras=True))
+    if quick:
+        # quick: 192 of the 576 three-item join chains (first item a table or a filtered derived table; second ON on the other
+        # tables or on the first item); the thorough tier runs all of them on the full instance bound
+        qs = [q_ for q_ in qs if not ({"c3.derived_notnull!", "c3.derived_plain!", "on2.both!"} & set(q_[2]))]
     if not quick:
         qs += [x for x in queries(3, opt_extras=True, engine_extras=True) if x[0] == 3][::6]
     res = ctx.run_shards(worker, ctx.jobs * 4, qs, not quick, 2 if quick else 2)
